@@ -156,12 +156,35 @@ def run(ctx):
             sp, cwd = rng.choice([("r", base), (".", root), (root, base), ("./r", base)])
             jobs.append(dict(base=base, root=root, g=g, realdir=realdir, dfs=dfs, sp=sp, cwd=cwd, mx=rng.choice([0, 0, 0, 2, 3])))
 
+    # links between sibling directories that sit exactly at the edge of the depth window: a link at depth N is listed but not
+    # followed under `maxdepth N`, while its target is a real directory the walk enters by its own path at a smaller depth
+    for i in range(4 if ctx.tier == "quick" else 24):
+        base = os.path.join(ctx.scratch, "w%d" % i)
+        lvl = 1 + i % 2                      # the sibling directories are at depth lvl, their links at depth lvl + 1
+        top = os.path.join(base, "r", *(["x"] * (lvl - 1)))
+        names = ["a", "m", "z"][: 2 + i % 2]
+        for nm in names:
+            os.makedirs(os.path.join(top, nm, "inner"))
+            open(os.path.join(top, nm, "f_%s.txt" % nm), "w").close()
+            open(os.path.join(top, nm, "inner", "deep_%s.txt" % nm), "w").close()
+        for k, nm in enumerate(names):
+            tgt = names[(k + 1) % len(names)]
+            text = os.path.join("..", tgt) if i % 3 else os.path.join(top, tgt)
+            os.symlink(text, os.path.join(top, nm, "to_" + tgt))
+        root = os.path.join(base, "r")
+        g, realdir = graph_of(root)
+        for dfs in (False, True):
+            for mx in (lvl + 1, lvl + 2):
+                sp, cwd = rng.choice([("r", base), (".", root), (root, base)])
+                jobs.append(dict(base=base, root=root, g=g, realdir=realdir, dfs=dfs, sp=sp, cwd=cwd, mx=mx))
+
     def one(j):
         opt = " symlinks" + (" maxdepth %d" % j["mx"] if j["mx"] else "") + (" dfs" if j["dfs"] else "")
         q = "path from %s%s into list" % (j["sp"], opt)
         r = ctx.impl.rows([q], cwd=j["cwd"])
         r["query"] = q
         r0 = ctx.impl.rows(["path from %s%s into list" % (j["sp"], " dfs" if j["dfs"] else "")], cwd=j["cwd"])
+        r["plain_window"] = ctx.impl.rows(["path from %s%s%s into list" % (j["sp"], " maxdepth %d" % j["mx"], " dfs" if j["dfs"] else "")], cwd=j["cwd"]) if j["mx"] else None
         return r, r0
 
     res = pmap(one, jobs)
@@ -170,7 +193,14 @@ def run(ctx):
         gt = graph_term(j["g"])
         rino = os.stat(j["root"]).st_ino
         exprs.append("run_g %s %d %s %s %s %d" % (gt, j["mx"], gbool(j["dfs"]), gstr(j["sp"]), gstr(os.path.realpath(j["root"])), rino))
-    mres = coq_eval(COQ_HEADER, exprs, ctx.scratch, tag="c18", shard=6, fallback_header=COQ_HEADER_FB)
+    from .common import CheckError
+    try:
+        mres = coq_eval(COQ_HEADER, exprs, ctx.scratch, tag="c18", shard=6, fallback_header=COQ_HEADER_FB)
+    except CheckError as e:
+        if "coqc failed" not in str(e) or not ctx.proof_failure:
+            raise
+        ctx.notes.append("model.WalkLinks could not be loaded after the proof failure; the binary is judged by the independent statements only")
+        mres = [None] * len(jobs)
     st = dict(agreed=0, distinct=set(), samples=[], hist=collections.Counter())
     for j, (r, r0), mt in zip(jobs, res, mres):
         rows = [v.decode("utf-8", "surrogateescape") for v in r["values"]]
@@ -204,6 +234,25 @@ def run(ctx):
                 ctx.violation("impl-violates-spec", "with `symlinks` the rows are not exactly one per entry of every reachable real directory (duplicates %s, missing %s)" % (dup, sorted(set(exp) - set(keys))[:5]),
                               input=case, observed=rows[:40])
                 continue
+        else:
+            # with a depth window: following links only ADDS rows - every entry the plain search lists inside the window is still
+            # listed (by its real directory and name), and no (real directory, name) pair appears twice
+            keys = []
+            for p in rows:
+                ap = p if os.path.isabs(p) else os.path.join(j["cwd"], p)
+                keys.append((os.path.realpath(os.path.dirname(ap)), os.path.basename(ap)))
+            pw = [v.decode("utf-8", "surrogateescape") for v in r["plain_window"]["values"]]
+            need = [(os.path.realpath(os.path.dirname(os.path.join(j["cwd"], p))), os.path.basename(p)) for p in pw]
+            c = collections.Counter(keys)
+            dup = [k for k, v in c.items() if v > 1][:5]
+            missing = sorted(set(need) - set(keys))[:5]
+            if dup or missing:
+                ctx.violation("impl-violates-spec", "with `symlinks maxdepth %d`: entries the plain search lists inside the window are missing (%s) or an entry is listed twice (%s)" % (j["mx"], missing, dup),
+                              input=case, observed=rows[:40], expected=pw[:40])
+                continue
+        if mt is None:
+            st["hist"]["model_unavailable"] += 1
+            continue
         ok, mrows, merrs, wf = parse_nested(mt)
         if not wf:
             ctx.violation("correspondence-mismatch", "the observed graph does not satisfy wf_graph (a directory entry whose inode differs from the inode of its listing)", input=case, concrete=False,
@@ -225,7 +274,7 @@ def run(ctx):
             st["samples"].append({"argv": [r["query"]], "links": case["links"], "rows": rows})
     ctx.coverage.update(
         evaluations=len(jobs), distinct_nontrivial=len(st["distinct"]), traces_validated_against_impl=st["agreed"],
-        rule="random trees decorated with 1-4 symbolic links: absolute and relative targets, to files, to directories inside the root, outside it and above it, to ancestors (cycles), chains (inside the root, and through a second link outside it), mutual pairs, self-links, dangling x root spelled '.', relative, './x', absolute x bfs/dfs x maxdepth 0/2/3: the search terminates with status 0 and empty stderr; without `symlinks` the rows are the plain listing; with it every (reachable real directory, entry name) pair appears exactly once; the exact row sequence equals model.WalkLinks.lwalk on the observed graph. non-trivial = a tree with at least one link",
+        rule="random trees decorated with 1-4 symbolic links: absolute and relative targets, to files, to directories inside the root, outside it and above it, to ancestors (cycles), chains (inside the root, and through a second link outside it), mutual pairs, self-links, dangling x root spelled '.', relative, './x', absolute x bfs/dfs x maxdepth 0/2/3, plus rings of links between sibling directories that sit exactly at the edge of the depth window: the search terminates with status 0 and empty stderr; without `symlinks` the rows are the plain listing; with it every (reachable real directory, entry name) pair appears exactly once (under a depth window: every entry the plain search lists inside the window still appears, none twice); the exact row sequence equals model.WalkLinks.lwalk on the observed graph. non-trivial = a tree with at least one link",
         samples=st["samples"], distribution=dict(st["hist"]))
     return ctx.finish(trusted=["canonicalize / read_link / stat are the kernel's; the observer (os.scandir, os.readlink, os.path.realpath, os.stat) supplies the graph",
                                "the depth window of entries behind a followed link is computed by the source from canonical paths (saturating); the documentation does not define it, the model reproduces it"])
